@@ -525,6 +525,24 @@ def _check(case, rec, env):
         if container or not same(v1, unwrap(pristine)):
             rec.nontrivial_case(case)
             rec.label("accepted_and_changed_or_container", sample=case if rspec["t"] not in ("list", "listarg", "argitems") else None)
+    if k1 == "value" and isinstance(v1, (dict, list)) and v1 is not raw and want != UNSPEC and want[0] == "value":
+        # the cleaned value belongs to the caller, who may go on working with it (add a key, append an item): cleaning the
+        # same raw value afterwards -- with this parameter object or another one of the same configuration -- still gives
+        # the value the raw argument stands for
+        try:
+            if isinstance(v1, dict):
+                v1["added by the caller"] = "x"
+            else:
+                v1.append("added by the caller")
+            for p_ in (param, make_param(pspec)):
+                k4, v4 = do_clean(p_, make_raw(rspec, env), env)
+                if k4 != "value" or not same(v4, want[1]):
+                    fails.append(Failure("%s|cleaned_value_shared_between_calls" % sig, "after the caller changed the value returned first, "
+                                         "cleaning the raw value again gives %r, expected %r" % (v4 if k4 == "value" else type(v4).__name__, want[1])))
+                    break
+            rec.label("returned_container_edited_then_recleaned")
+        except Exception as exc:
+            fails.append(Failure("%s|reclean_raises:%s" % (sig, type(exc).__name__), repr(exc)))
     if vlog.LOG or env.state() != before:
         fails.append(Failure("%s|program_mutated_by_reclean" % sig, "state changed by repeated clean()"))
     rec.label("outcome:" + (k1 if k1 == "value" else type(v1).__name__))
